@@ -782,8 +782,8 @@ class Inflate:
     @staticmethod
     def gen(pool, a=None, style=None):
         a = a or pool.pick(lambda n: n.kind != 'x')
-        style = style or str(pool.rng.choice(['const1', 'const1', 'const0', 'const2', 'arg1', 'perm']))
-        nd = {'const0': 0, 'const1': 1, 'const2': 2, 'arg1': 1, 'perm': 1}[style]
+        style = style or str(pool.rng.choice(['const1', 'const1', 'const0', 'const2', 'const3', 'arg1', 'perm']))
+        nd = {'const0': 0, 'const1': 1, 'const2': 2, 'const3': 3, 'arg1': 1, 'perm': 1}[style]
         if a.ndim < nd:
             raise Reject
         axis = int(pool.rng.integers(0, a.ndim - nd + 1))
@@ -1502,7 +1502,7 @@ def chain_kinds():
         elif name == 'take':
             kinds += ['take:' + st for st in ('const', 'neg', 'mask', 'arg', 'slice', 'get', 'range')]
         elif name == 'inflate':
-            kinds += ['inflate:' + st for st in ('const1', 'const0', 'const2', 'arg1', 'perm')]
+            kinds += ['inflate:' + st for st in ('const1', 'const0', 'const2', 'const3', 'arg1', 'perm')]
         elif name == 'powconst':
             kinds += ['powconst:' + str(e) for e in (2, 3, 4, 0, -1, -2, .5, 1.5, .25)]
         else:
